@@ -992,6 +992,8 @@ class Interp:
             holder, key = f.locals, nm
         cur = holder.get(key)
         if isinstance(cur, VList) and ty.kind in ("seq", "list", "deque"):
+            if any(isinstance(x, (VOpt, VUnion)) for x in cur.items):
+                cur = VList([self.force(x) for x in cur.items])     # an optional already tested on this path is the value it holds
             holder[key] = VSeq(to_z3(cur, ty), ty.args[0])
         elif isinstance(cur, VSet) and cur.z is None and ty.kind == "set":
             holder[key] = VSet(z3.K(sort_of(ty.args[0]), z3.BoolVal(False)), ty.args[0])
@@ -1917,7 +1919,10 @@ class Interp:
                 return r
             if not self.spec_mode and self.ctx.branch(z3.Not(z3.Select(o.present, kz)), "keyerror"):
                 self.raise_("KeyError", k)
-            return from_z3(z3.Select(o.val, kz), o.vt)
+            r = from_z3(z3.Select(o.val, kz), o.vt)
+            if not self.spec_mode and isinstance(r, VSet):
+                r.origin = (o, kz)       # d[k].add(x): the set is the map's value, mutations are written back (models.call_method)
+            return r
         if isinstance(o, (VList, VTuple)):
             ck = self.concrete(k)
             if ck is _NOCONST:
